@@ -4,7 +4,8 @@
 
    Vocabulary (Model/Events.v): g : cfg holds the listener tables of an eager
    and a lazyUpdate class (any number of listeners, each a (signal, program)
-   pair; programs: log, kwargs[c] = v, kwargs.pop(c), post_funcs.append);
+   pair; programs: log, kwargs[c] = v, kwargs.pop(c), post_funcs.append, raise
+   (once), append a callback that raises (once));
    run g init ops = the records of a history, each with pre-state, operation,
    outcome, ordered trace (ESig = delivery of a signal to one listener with
    the kwargs as found, EPost = a post callback ran, EWrite = INSERT/UPDATE/
@@ -13,9 +14,10 @@
    guard any more (the defects of _SO_setValue with receivers that change the
    key set of an assignment's dict were repaired by 480ba65; such an
    assignment now simply is set() of what the receivers left).  Failing
-   operations (ill-typed values, missing required columns, unknown instances)
-   may occur anywhere in the histories; the theorems speak about the
-   successful steps. *)
+   operations (ill-typed values, missing required columns, unknown instances,
+   operations in which a listener or a callback raises -- at any of the six
+   signals) may occur anywhere in the histories; the theorems speak about the
+   successful steps, in particular those after such a failure. *)
 From Coq Require Import List ZArith NArith Bool.
 From Model Require Import Events.
 From Proofs Require Import EventsBase EventsStep EventsHist EventsChain EventsRead.
@@ -195,6 +197,31 @@ Example C19_chain_nonvacuous :
                  (LC, [(CA, VInt 5)])])
   = [CDone 1; CDone 2; CExn XInvalid; CDone 4].
 Proof. vm_compute. reflexivity. Qed.
+
+(* listeners and callbacks that raise (once): the operation they hit is a
+   failing one, the later successful ones are covered by the theorems above.
+   A RowCreatedSignal receiver raises at the first creation (the row stays,
+   the constructor does not return), the next creations of the same and of the
+   other class get their RowCreatedSignal; a raising callback of
+   RowUpdatedSignal leaves the row written. *)
+Definition ex_rg : cfg :=
+  {| lis_e := [(SCreated, ARaise); (SCreated, ALog); (SUpdated, APostRaise 102)]; lis_l := [(SCreated, APost 1)] |}.
+Definition ex_rops : list op :=
+  [OCreate KEager [(CA, VInt 1)]; OCreate KEager [(CA, VInt 2)]; OCreate KLazy [(CA, VInt 3)];
+   OAssign KEager 2 CA (VInt 5); OAssign KEager 2 CA (VInt 6); OAssign KEager 1 CA (VInt 0)].
+Example C19_example_after_a_raise :
+  map (fun r => (r_out r, r_tr r)) (run ex_rg init ex_rops)
+  = [(Exn XBoom, [EWrite (WInsert KEager 1 [(CA, VInt 1); (CB, VNull); (CC, VInt 7)]); ESig SCreated KEager (Some 1) [] 0]);
+     (Done, [EWrite (WInsert KEager 2 [(CA, VInt 2); (CB, VNull); (CC, VInt 7)]); ESig SCreated KEager (Some 2) [] 0;
+             ESig SCreated KEager (Some 2) [] 1]);
+     (Done, [EWrite (WInsert KLazy 1 [(CA, VInt 3); (CB, VNull); (CC, VInt 7)]); ESig SCreated KLazy (Some 1) [] 0;
+             EPost SCreated 1 KLazy 1]);
+     (Exn XBoom, [EWrite (WUpdate KEager 2 [(CA, VInt 5)]); ESig SUpdated KEager (Some 2) [] 2; EPost SUpdated 102 KEager 2]);
+     (Done, [EWrite (WUpdate KEager 2 [(CA, VInt 6)]); ESig SUpdated KEager (Some 2) [] 2; EPost SUpdated 102 KEager 2]);
+     (NoHandle, [])]
+  /\ k_tbl (s_e (fold_left (fun st o => fst (fst (step ex_rg st o))) ex_rops init))
+     = [(1, [(CA, VInt 1); (CB, VNull); (CC, VInt 7)]); (2, [(CA, VInt 6); (CB, VNull); (CC, VInt 7)])].
+Proof. vm_compute. split; reflexivity. Qed.
 
 Print Assumptions C19_exactly_once_in_order.
 Print Assumptions C19_log_is_concat_of_spec.
